@@ -25,6 +25,9 @@ def get_engine(name):
     if name == "E1p":
         from .workloads import e1p
         return e1p.run_case_params
+    if name == "E2p":
+        from .workloads import e2p
+        return e2p.run_case_params
     if name == "E2":
         from .workloads import e2
         return e2.run_unit_params
@@ -46,7 +49,7 @@ def get_engine(name):
     raise ValueError(name)
 
 
-INDEXED = {"E2", "E8"}
+INDEXED = {"E2", "E8", "E2p"}
 
 
 def crash_mechanism(crash):
